@@ -66,6 +66,20 @@ type ilay struct {
 	pre, post      []byte
 	i1, i2, i3, i4 []byte
 	blanks         [][]byte
+	szPlus         bool // the size field of a uripost / raw entry is written with a leading '+'
+	szZeros        int  // ... with this many leading zeros (fixed-width sizes such as 010 = ten)
+}
+
+// sizeText: the size field as its author may spell it (mirrors Pandora.Model.C07 `sizeText`)
+func sizeText(l ilay, n int) []byte {
+	var o []byte
+	if l.szPlus {
+		o = append(o, '+')
+	}
+	for i := 0; i < l.szZeros; i++ {
+		o = append(o, '0')
+	}
+	return append(o, strconv.Itoa(n)...)
 }
 
 type layout struct {
@@ -100,7 +114,7 @@ func content(format string, it item, l ilay) []byte {
 		o = append(o, ']')
 	case 'r':
 		if format == "uripost" {
-			o = append(o, strconv.Itoa(len(it.c))...)
+			o = append(o, sizeText(l, len(it.c))...)
 			o = append(o, ' ')
 		}
 		o = append(o, it.a...)
@@ -109,7 +123,7 @@ func content(format string, it item, l ilay) []byte {
 			o = append(o, it.b...)
 		}
 	case 'f':
-		o = append(o, strconv.Itoa(len(it.c))...)
+		o = append(o, sizeText(l, len(it.c))...)
 		if len(it.b) > 0 {
 			o = append(o, ' ')
 			o = append(o, it.b...)
@@ -194,7 +208,11 @@ func encBlankList(p [][]byte) string { return strconv.Itoa(len(p)) + "/" + encPa
 func encLayout(lay layout) string {
 	var per []string
 	for _, l := range lay.per {
-		per = append(per, strings.Join([]string{hx(l.pre), hx(l.post), hx(l.i1), hx(l.i2), hx(l.i3), hx(l.i4), encBlankList(l.blanks)}, ":"))
+		f := []string{hx(l.pre), hx(l.post), hx(l.i1), hx(l.i2), hx(l.i3), hx(l.i4), encBlankList(l.blanks)}
+		if l.szPlus || l.szZeros > 0 {
+			f = append(f, map[bool]string{false: "0", true: "1"}[l.szPlus], strconv.Itoa(l.szZeros))
+		}
+		per = append(per, strings.Join(f, ":"))
 	}
 	f := "0"
 	if lay.fnl {
@@ -929,6 +947,14 @@ func randLayout(r *rand.Rand, f flags, n int) layout {
 			l.post = append(l.post, '\r')
 		}
 		l.blanks = randBlanks(r, f, 2)
+		// the spelling of the size field (uripost / raw; ignored by uri): fixed-width sizes with leading zeros, an explicit '+'
+		// - strconv.Atoi reads all of them as the same decimal number
+		if r.Intn(5) == 0 {
+			l.szZeros = []int{1, 1, 2, 3, 5, 19, 24}[r.Intn(7)]
+		}
+		if r.Intn(12) == 0 {
+			l.szPlus = true
+		}
 		lay.per = append(lay.per, l)
 	}
 	if f.blanks && f.padding && r.Intn(2) == 0 {
